@@ -1,0 +1,13 @@
+//go:build verif
+
+package main
+
+// verifHook is installed by verification harnesses (build tag "verif") to
+// observe and gate the reader/writer goroutines at named points.
+var verifHook func(point string)
+
+func verifPoint(point string) {
+	if h := verifHook; h != nil {
+		h(point)
+	}
+}
